@@ -317,4 +317,7 @@ def check(repo, rep, tier):
     r_xor(mod, rep)
     r_clear(mod, rep)
     r_shape_predicates(mod, rep)
+    from ..lints import r_module_state
+    r_module_state(repo, rep, 'R13.4', ['depccg/cat.py', 'depccg/grammar/en.py'],
+                   'an erasure remembered under the category alone answers a later request for other feature names')
     rep.floor('value classes', len(CLASSES), 4)
